@@ -28,6 +28,16 @@ Round-3 families (EXTENDING.md; every one is a set of *additional* tasks whose l
   alpha 1e-6 / 0.999, a batch equal to the reference as a set (other multiplicities and row
   order), ``set_reference`` called by the user mid-history and right after a drift, and
   ``NNDVIx``: several detectors with different parameters interleaved call by call.
+
+Round-4 families (objects that are used again):
+
+* NNDVI ``reuse``: the caller keeps ONE container per shape (2-D ndarray C / Fortran ordered, a row slice and a
+  transposed view of a capacity buffer, DataFrame, 1-D ndarray, 1-D slice, Series; float64 / int64 / float32), refills it
+  in place and passes the same object to ``set_reference`` and to every ``update`` (also to a user's ``set_reference``
+  mid-history); the reference must stay the batch that was given when the container is refilled and when every
+  container is overwritten after the history.  Every history is executed from scratch (no snapshots).
+* ``NNSPr``: ONE NNSpacePartitioner object built for every sequence of sample pairs (sizes 1-2 x 1-2 over 3 points), fed
+  from the caller's two reused buffers which are overwritten right after each build; all NNSP oracles after every build.
 """
 import itertools
 import math
@@ -132,6 +142,88 @@ def _flt(a):
     return [float(x) for x in np.asarray(a, dtype=float).ravel()]
 
 
+def _judge_partition(p, d_fwd, d_rev, s1, s2, k, tol):
+    """Every NNSP oracle on one built partitioner ``p`` (s1 / s2: the exact rows given; d_fwd: its distance;
+    d_rev: the distance of the build with the samples swapped, or None).  Raises the first Violation."""
+    D = M.union(s1, s2)
+    n = len(D)
+    e1 = M.membership(D, s1)
+    e2 = M.membership(D, s2)
+    unequal = len(s1) != len(s2)
+    shared = sum(1 for a, b in zip(e1, e2) if a and b)
+    within = len(set(map(tuple, s1))) < len(s1) or len(set(map(tuple, s2))) < len(s2)
+    same_set = e1 == e2
+    size_cls = "unequal-sizes" if unequal else "equal-sizes"
+    fails = []
+
+    def fail(sub, msg, expected, observed, sig=None):
+        fails.append(Violation(sub, msg, expected=expected, observed=observed, sig=sig or sub))
+
+    # --- D: de-duplicated union, sorted
+    D_obs = np.asarray(p.D, dtype=float)
+    D_exp = [[float(x) for x in pt] for pt in D]
+    if D_obs.ndim != 2 or D_obs.tolist() != D_exp:
+        fail("nnsp-union", "D is not the sorted de-duplicated union of the two samples (s1=%r s2=%r)" % (s1, s2),
+             D_exp, D_obs.tolist())
+    # --- v1 / v2: exact membership indicators
+    v1_obs, v2_obs = _flt(p.v1), _flt(p.v2)
+    if v1_obs != [float(x) for x in e1] or v2_obs != [float(x) for x in e2]:
+        fail("nnsp-membership",
+             "v1/v2 are not the membership indicators of sample 1 / sample 2 over D=%r for sizes %d,%d "
+             "(s1=%r s2=%r)" % (D_exp, len(s1), len(s2), s1, s2),
+             {"v1": e1, "v2": e2}, {"v1": v1_obs, "v2": v2_obs},
+             sig="nnsp-membership|" + size_cls)
+    # --- adjacency: kNN relation, self included
+    adj = np.asarray(p.adjacency_matrix, dtype=float)
+    adj_ok = adj.shape == (n, n)
+    if not adj_ok:
+        fail("nnsp-adjacency", "adjacency_matrix has shape %r, |D| = %d" % (adj.shape, n), [n, n], list(adj.shape))
+    else:
+        for i in range(n):
+            why = M.knn_row_defect(D, i, adj[i].tolist(), k, tol)
+            if why:
+                adj_ok = False
+                fail("nnsp-adjacency", "adjacency_matrix is not the %d-NN relation of D=%r: %s" % (k, D_exp, why),
+                     "k nearest points incl. itself", adj.tolist())
+                break
+    tie = M.has_boundary_tie(D, k)
+    if tie and tol:
+        raise HarnessError("HARNESS-CRASH: the level-1e6 menus are meant to be free of exact ties")
+    # --- nnps matrix: weight-normalised adjacency
+    if adj_ok:
+        P_exp = [[float(x) for x in r] for r in M.weight_normalised(adj.astype(int).tolist())]
+        P_obs = np.asarray(p.nnps_matrix, dtype=float)
+        if P_obs.shape != (n, n) or P_obs.tolist() != P_exp:
+            fail("nnsp-nnps-matrix", "nnps_matrix is not the weight-normalised adjacency matrix", P_exp, P_obs.tolist())
+    # --- distance: formula, range, identity, symmetry
+    if adj_ok:
+        d_exp = M.distance(adj.astype(int).tolist(), e1, e2)
+        if d_exp is None or not close(float(d_exp), d_fwd):
+            fail("nnsp-distance-formula",
+                 "distance %r differs from sum|a-b|/(a+b)/|D| = %s recomputed from D, the memberships and the "
+                 "adjacency (s1=%r s2=%r k=%d)" % (d_fwd, d_exp, s1, s2, k),
+                 None if d_exp is None else float(d_exp), d_fwd, sig="nnsp-distance-formula|" + size_cls)
+    if math.isnan(d_fwd) or d_fwd < -1e-12 or d_fwd > 1 + 1e-12:
+        fail("nnsp-distance-range", "distance %r outside [0,1] (s1=%r s2=%r k=%d)" % (d_fwd, s1, s2, k),
+             "[0,1]", d_fwd, sig="nnsp-distance-range|" + size_cls)
+    if same_set and not (abs(d_fwd) <= 1e-12):
+        fail("nnsp-distance-identity",
+             "both samples are the same set but the distance is %r (s1=%r s2=%r k=%d)" % (d_fwd, s1, s2, k),
+             0.0, d_fwd, sig="nnsp-distance-identity|" + size_cls)
+    if d_rev is not None and not close(d_fwd, d_rev):
+        fail("nnsp-distance-symmetry",
+             "distance(s1,s2) = %r but distance(s2,s1) = %r (s1=%r s2=%r k=%d)" % (d_fwd, d_rev, s1, s2, k),
+             d_rev, d_fwd, sig="nnsp-distance-symmetry|" + size_cls)
+
+    if fails:
+        v = fails[0]
+        others = sorted({f.sub for f in fails[1:]} - {v.sub})
+        if others:
+            v.msg += " [also failing here: %s]" % ", ".join(others)
+        raise v
+    return n, D_exp, v1_obs, v2_obs, unequal, shared, within, same_set, tie
+
+
 class NNSPSystem(System):
     """One event = one pair of samples; the history has length 1 (so --replay works)."""
 
@@ -168,82 +260,8 @@ class NNSPSystem(System):
                 expected="a partition", observed=repr(e),
             )
 
-        D = M.union(s1, s2)
-        n = len(D)
-        e1 = M.membership(D, s1)
-        e2 = M.membership(D, s2)
-        unequal = len(s1) != len(s2)
-        shared = sum(1 for a, b in zip(e1, e2) if a and b)
-        within = len(set(map(tuple, s1))) < len(s1) or len(set(map(tuple, s2))) < len(s2)
-        same_set = e1 == e2
-        size_cls = "unequal-sizes" if unequal else "equal-sizes"
-        fails = []
-
-        def fail(sub, msg, expected, observed, sig=None):
-            fails.append(Violation(sub, msg, expected=expected, observed=observed, sig=sig or sub))
-
-        # --- D: de-duplicated union, sorted
-        D_obs = np.asarray(p.D, dtype=float)
-        D_exp = [[float(x) for x in pt] for pt in D]
-        if D_obs.ndim != 2 or D_obs.tolist() != D_exp:
-            fail("nnsp-union", "D is not the sorted de-duplicated union of the two samples (s1=%r s2=%r)" % (s1, s2),
-                 D_exp, D_obs.tolist())
-        # --- v1 / v2: exact membership indicators
-        v1_obs, v2_obs = _flt(p.v1), _flt(p.v2)
-        if v1_obs != [float(x) for x in e1] or v2_obs != [float(x) for x in e2]:
-            fail("nnsp-membership",
-                 "v1/v2 are not the membership indicators of sample 1 / sample 2 over D=%r for sizes %d,%d "
-                 "(s1=%r s2=%r)" % (D_exp, len(s1), len(s2), s1, s2),
-                 {"v1": e1, "v2": e2}, {"v1": v1_obs, "v2": v2_obs},
-                 sig="nnsp-membership|" + size_cls)
-        # --- adjacency: kNN relation, self included
-        adj = np.asarray(p.adjacency_matrix, dtype=float)
-        adj_ok = adj.shape == (n, n)
-        if not adj_ok:
-            fail("nnsp-adjacency", "adjacency_matrix has shape %r, |D| = %d" % (adj.shape, n), [n, n], list(adj.shape))
-        else:
-            for i in range(n):
-                why = M.knn_row_defect(D, i, adj[i].tolist(), k, tol)
-                if why:
-                    adj_ok = False
-                    fail("nnsp-adjacency", "adjacency_matrix is not the %d-NN relation of D=%r: %s" % (k, D_exp, why),
-                         "k nearest points incl. itself", adj.tolist())
-                    break
-        tie = M.has_boundary_tie(D, k)
-        if tie and tol:
-            raise HarnessError("HARNESS-CRASH: the level-1e6 menus are meant to be free of exact ties")
-        # --- nnps matrix: weight-normalised adjacency
-        if adj_ok:
-            P_exp = [[float(x) for x in r] for r in M.weight_normalised(adj.astype(int).tolist())]
-            P_obs = np.asarray(p.nnps_matrix, dtype=float)
-            if P_obs.shape != (n, n) or P_obs.tolist() != P_exp:
-                fail("nnsp-nnps-matrix", "nnps_matrix is not the weight-normalised adjacency matrix", P_exp, P_obs.tolist())
-        # --- distance: formula, range, identity, symmetry
-        if adj_ok:
-            d_exp = M.distance(adj.astype(int).tolist(), e1, e2)
-            if d_exp is None or not close(float(d_exp), d_fwd):
-                fail("nnsp-distance-formula",
-                     "distance %r differs from sum|a-b|/(a+b)/|D| = %s recomputed from D, the memberships and the "
-                     "adjacency (s1=%r s2=%r k=%d)" % (d_fwd, d_exp, s1, s2, k),
-                     None if d_exp is None else float(d_exp), d_fwd, sig="nnsp-distance-formula|" + size_cls)
-        if math.isnan(d_fwd) or d_fwd < -1e-12 or d_fwd > 1 + 1e-12:
-            fail("nnsp-distance-range", "distance %r outside [0,1] (s1=%r s2=%r k=%d)" % (d_fwd, s1, s2, k),
-                 "[0,1]", d_fwd, sig="nnsp-distance-range|" + size_cls)
-        if same_set and not (abs(d_fwd) <= 1e-12):
-            fail("nnsp-distance-identity",
-                 "both samples are the same set but the distance is %r (s1=%r s2=%r k=%d)" % (d_fwd, s1, s2, k),
-                 0.0, d_fwd, sig="nnsp-distance-identity|" + size_cls)
-        if not close(d_fwd, d_rev):
-            fail("nnsp-distance-symmetry",
-                 "distance(s1,s2) = %r but distance(s2,s1) = %r (s1=%r s2=%r k=%d)" % (d_fwd, d_rev, s1, s2, k),
-                 d_rev, d_fwd, sig="nnsp-distance-symmetry|" + size_cls)
-
-        if fails:
-            v = fails[0]
-            others = sorted({f.sub for f in fails[1:]} - {v.sub})
-            if others:
-                v.msg += " [also failing here: %s]" % ", ".join(others)
-            raise v
+        n, D_exp, v1_obs, v2_obs, unequal, shared, within, same_set, tie = _judge_partition(
+            p, d_fwd, d_rev, s1, s2, k, tol)
 
         if unequal:
             ctx.mark("unequal_size_pairs")
@@ -335,6 +353,86 @@ def run_nnsp(task, seed):
                 samples.append({"system": "NNSP", "cfg": jsonable(cfg), "events": [jsonable(ev)],
                                 "last_obs": jsonable(obs), "nontrivial_events": ctx.marks})
     return {"stats": dict(st), "violations": violations, "samples": samples, "wall": time.time() - t0}
+
+
+# ======================================================================= NNSPr (one partitioner object, reused; round 4)
+NNSPR_CAP = 4  # rows of the caller's two preallocated sample buffers
+# 3 points of a point menu each: every ordered pair of multisets of size 1-2 over them is an event (69 / 81 events),
+# every sequence of NNSPR_LEN builds on the one object is explored.  Unions of 1-3 points, so consecutive builds have
+# unions of different and of equal sizes (with other memberships); [0, 1, 2] of "2d" has tied neighbours for k = 2.
+NNSPR_CONFIGS = [
+    {"menu": "2d", "pts": [0, 1, 2], "k": 2},
+    {"menu": "2d", "pts": [0, 3, 4], "k": 1},
+    {"menu": "2d-int", "pts": [0, 1, 4], "k": 2, "form": "i64"},
+]
+NNSPR_LEN = {"quick": 2, "thorough": 3}
+
+
+def _nnspr_events(cfg):
+    """Every ordered pair (multiset of size 1-2, multiset of size 1-2) over the configuration's points whose union has
+    at least k points; an event is [[indices of sample 1], [indices of sample 2]]."""
+    n = len(cfg["pts"])
+    ms = [list(c) for size in (1, 2) for c in itertools.combinations_with_replacement(range(n), size)]
+    return [[a, b] for a in ms for b in ms if len(set(a) | set(b)) >= cfg["k"]]
+
+
+class NNSPReusedSystem(System):
+    """ONE NNSpacePartitioner object built again and again (the property speaks of *any* two samples, not of the first
+    two an object sees), fed from the caller's two preallocated buffers (views ``buf[:n]``, refilled in place for every
+    build and overwritten right after it).  After every build all NNSP oracles are applied to the object's attributes:
+    nothing of an earlier build (one-hot vectors, union, neighbour index) and nothing of the caller's buffers may show."""
+
+    name = "NNSPr"
+
+    def init(self, cfg):
+        return {"p": NNSpacePartitioner(cfg["k"]), "bufs": {}, "last": None}
+
+    def alphabet(self, cfg, state, pos):
+        return _nnspr_events(cfg)
+
+    def step(self, cfg, state, ev, pos, ctx):
+        k, form = cfg["k"], cfg.get("form", "f64")
+        menu = POINT_MENU[cfg["menu"]]
+        given = []
+        views = []
+        for role, idx in zip("ab", ev):
+            a = _arr([list(menu[cfg["pts"][i]]) for i in idx], form)
+            buf = state["bufs"].setdefault(role, np.zeros((NNSPR_CAP, a.shape[1]), dtype=a.dtype))
+            buf[:len(a)] = a
+            views.append(buf[:len(a)])
+            given.append(_exact(a))
+        s1, s2 = given
+        p = state["p"]
+        try:
+            p.build(views[0], views[1])
+            # the caller's read loop goes on: both buffers are overwritten before the results are looked at
+            for buf in state["bufs"].values():
+                buf[...] = REUSE_SCRIBBLE
+            d = float(NNSpacePartitioner.compute_nnps_distance(p.nnps_matrix, p.v1, p.v2))
+        except Exception as e:
+            raise Violation("nnsp-exception", "NNSpacePartitioner(k=%d), build number %d on the same object, raised %s: %s "
+                            "on s1=%r s2=%r" % (k, pos + 1, type(e).__name__, e, s1, s2),
+                            expected="a partition", observed=repr(e), sig="nnsp-exception|reused-partitioner")
+        try:
+            n, D_exp, v1_obs, v2_obs, unequal, shared, within, same_set, tie = _judge_partition(p, d, None, s1, s2, k, 0)
+        except Violation as v:
+            v.msg = ("build number %d on ONE partitioner object (fed from the caller's two reused buffers, overwritten "
+                     "after the build; previous build: %r): %s" % (pos + 1, state["last"], v.msg))
+            v.sig = "%s|reused-partitioner" % v.sub
+            raise
+        ctx.count("nnspr_builds")
+        if pos:
+            ctx.mark("nnspr_builds_on_a_used_partitioner")
+            pn, pv1, pv2 = state["last_shape"]
+            if pn != n:
+                ctx.count("nnspr_rebuilds_with_another_union_size")
+            elif (pv1, pv2) != (v1_obs, v2_obs):
+                ctx.count("nnspr_rebuilds_same_union_size_other_membership")
+        if tie:
+            ctx.count("nnspr_builds_with_knn_boundary_tie")
+        state["last"] = [s1, s2]
+        state["last_shape"] = (n, v1_obs, v2_obs)
+        return {"D": D_exp, "v1": v1_obs, "v2": v2_obs, "distance": d}
 
 
 # ======================================================================= NNDVI (lock-step model)
@@ -957,7 +1055,7 @@ class NNDVIMultiSystem(System):
         return obs
 
 
-SYSTEMS = {"NNSP": NNSPSystem(), "NNDVI": NNDVISystem(), "NNDVIx": NNDVIMultiSystem()}
+SYSTEMS = {"NNSP": NNSPSystem(), "NNSPr": NNSPReusedSystem(), "NNDVI": NNDVISystem(), "NNDVIx": NNDVIMultiSystem()}
 
 
 # ======================================================================= tasks / evidence
@@ -1119,6 +1217,22 @@ def _family_tasks(tier):
                         "label": "NNDVI|reuse|%s|%s" % (cid, first),
                         "cost": 10 ** 6 + len(events or [0, 1, 2, 3]) ** (Lr - 1) * Lr * 6,
                     })
+    # ---------------------------------------------------------------- ONE partitioner object reused (round 4)
+    for cfg in NNSPR_CONFIGS:
+        cfg = dict(cfg, id="%s-p%s:%s|k%d" % (cfg["menu"], "".join(map(str, cfg["pts"])), cfg.get("form", "f64"), cfg["k"]),
+                   len=NNSPR_LEN[tier], family="reused-partitioner")
+        evs = _nnspr_events(cfg)
+        # thorough: three builds on the first configuration only (69^3 sequences, one task per first build)
+        Ln = NNSPR_LEN[tier] if cfg["pts"] == NNSPR_CONFIGS[0]["pts"] and cfg["menu"] == NNSPR_CONFIGS[0]["menu"] else 2
+        cfg["len"] = Ln
+        for first in ([None] if Ln == 2 else evs):
+            out.append({
+                "system": "NNSPr", "cfg": cfg, "prefix": [] if first is None else [first],
+                "depth": Ln if first is None else Ln - 1,
+                "label": "NNSPr|reused-partitioner|%s|%s" % (cfg["id"], "all" if first is None else first),
+                "cost": 10 ** 6 + len(evs) ** (Ln if first is None else Ln - 1) * 2,
+                "validate_every": 50,
+            })
     # several detectors interleaved
     units = [
         {"id": "u0", "menu": "1d-ms", "k_nn": 1, "sampling_times": 8, "alpha": 0.3},
@@ -1203,6 +1317,16 @@ REQUIRED = [
     "drift_on_unequal_sizes",
     "drift_on_equal_sizes",
     "updates_sharing_points_with_reference",
+    # round 4 (none of these depends on a random draw: they count what the harness does and the shapes of the menus)
+    "reuse_container_passed_again",
+    "reuse_container_overwritten_with_other_values",
+    "reuse_set_reference_calls",
+    "reuse_histories_ending_with_all_containers_overwritten",
+    "reuse_kind_nd2", "reuse_kind_nd2-slice", "reuse_kind_nd2-T", "reuse_kind_nd2-F", "reuse_kind_df",
+    "reuse_kind_nd1", "reuse_kind_nd1-slice", "reuse_kind_series",
+    "nnspr_builds_on_a_used_partitioner",
+    "nnspr_rebuilds_with_another_union_size",
+    "nnspr_rebuilds_same_union_size_other_membership",
 ]
 
 # safety net only (the machine is shared; sized ~50x the CPU-seconds/16 actually needed)
@@ -1217,7 +1341,11 @@ def describe(tier):
         "real build on (s1,s2) plus the real build on (s2,s1), all oracles; non-trivial = unequal sizes, "
         "duplicates within or across the samples, or a kNN boundary tie. NNDVI: every sequence of menu batches of "
         "the stated length after set_reference, per configuration (prefix-shared DFS, deepcopy snapshots, lock-step "
-        "model after every update); non-trivial = at least one drift. Evaluations are distinct by construction.",
+        "model after every update); non-trivial = at least one drift. Evaluations are distinct by construction. "
+        "Value / container / parameter families (rounds 3-4) are additional tasks of the same two kinds, see 'families'. "
+        "NNDVI reuse family: every sequence of the stated length, each executed from scratch, the caller passing ONE "
+        "container per shape refilled in place. NNSPr: every sequence of nnspr_sequence_length sample pairs built on ONE "
+        "partitioner object from the caller's two reused buffers.",
         "bounds": {
             "nnsp_point_menu": POINT_MENU,
             "nnsp_sample_sizes": list(SIZES),
@@ -1232,6 +1360,23 @@ def describe(tier):
             "nndvi_sampling_times": list(SAMPLING_TIMES),
             "nndvi_alpha": list(ALPHAS),
             "nndvi_configurations": 2 * len(K_NN) * len(SAMPLING_TIMES) * len(ALPHAS),
+            "families": {
+                "nnsp_value_families": [
+                    {"family": f[6], "menu": f[0], "menu_of_sample_2": f[1], "dtypes": f[2], "sizes": list(f[3]),
+                     "k": list(f[4])} for f in NNSP_FAMILIES],
+                "nndvi_family_sequence_length": 3 if tier == "quick" else 4,
+                "nndvi_families": ["int", "lattice", "float32", "dataframe", "3d", "level1e6", "sampling-1-3",
+                                   "alpha-extreme", "user-set-reference (length + 1)", "interleaved (NNDVIx)", "reuse"],
+                "nndvi_reuse_container_kinds": {k: v[1] for k, v in REUSE_KINDS.items()},
+                "nndvi_reuse_plan": "2d-ms f64 x {nd2, nd2-slice, nd2-T, nd2-F, df}; 1d-ms f64 x {nd1, nd1-slice, series, "
+                "nd2, df}; 2d-int int64 x {nd2, df}; 2d-dec float32 x {nd2, nd2-slice, df}; with user set_reference events "
+                "(update 0/1/3, set_reference of batch 1 / batch 3 / the initial reference): 2d-ms x {nd2, df}, 1d-ms x "
+                "{nd1}; k_nn 2 (1 for the last), sampling_times 8, alpha 0.3; all containers overwritten with %r after "
+                "the last call" % REUSE_SCRIBBLE,
+                "nnspr_configurations": NNSPR_CONFIGS,
+                "nnspr_events": "every ordered pair of multisets of size 1-2 over the 3 points with |union| >= k",
+                "nnspr_sequence_length": "%d for the first configuration, 2 for the others" % NNSPR_LEN[tier],
+            },
         },
         "explanation": "states = distinct inputs (NNSP) + tree nodes (NNDVI); transitions = real build() calls (two "
         "per NNSP evaluation) + real update() calls; traces_validated_against_impl = NNSP evaluations + maximal "
@@ -1246,6 +1391,9 @@ def describe(tier):
             "uses its own brute-force neighbours; ties are covered by the NNSP enumeration with a tie-tolerant oracle",
             "the numeric value of the threshold is additionally compared through the private static helper "
             "NNDVI._compute_drift_threshold when it exists (sharpening only; skipped if unavailable)",
+            "reuse families: the caller overwrites a container only between calls (single-threaded caller), and the "
+            "detector is not required to leave the caller's container untouched -- only its own reference / partition "
+            "must not follow the container; list containers are not reused (numpy always copies a list)",
             "decisions within relative 1e-9 of the threshold are numerically undecidable and follow the "
             "implementation (near_tie_steered); scipy.stats.norm.ppf and exact Fraction arithmetic are trusted",
         ],
